@@ -87,14 +87,7 @@ From Coq Require Import Lia.
    wrapped into [-2^(bits-1), 2^(bits-1)).  On int8 [-127; -2; 10] the shifted criterion does not have
    minimum 0 (10 + 127 = 137 wraps to -119); in unbounded integers - the repaired behaviour widens to 64
    bits first - it has, for every input (Transform.push_neg_min_zero). *)
-Definition wrap (bits : positive) (x : Z) : Z :=
-  let h := Z.pow 2 (Z.pos bits - 1) in ((x + h) mod (2 * h) - h)%Z.
-Definition zmin (v : list Z) : Z := fold_right Z.min (hd 0%Z v) v.
-Definition push_neg_wrapped (bits : positive) (v : list Z) : list Z :=
-  let mn := zmin v in if (mn <? 0)%Z then map (fun x => wrap bits (x - mn)) v else v.
-Definition push_neg_Z (v : list Z) : list Z :=
-  let mn := zmin v in if (mn <? 0)%Z then map (fun x => (x - mn)%Z) v else v.
-
+From SKC Require Import Model.IntStorage.
 Theorem push_neg_int8_refuted :
   exists v, Forall (fun x => (-128 <= x < 128)%Z) v /\ zmin (push_neg_wrapped 8 v) <> 0%Z.
 Proof.
@@ -119,3 +112,47 @@ Proof.
   intros H. unfold push_neg_wrapped, push_neg_Z. destruct (zmin v <? 0)%Z; [|reflexivity].
   apply map_ext_in. intros x Hx. apply wrap_fits. rewrite Forall_forall in H. exact (H x Hx).
 Qed.
+
+(* the repair (arrays of 8/16/32-bit integers are widened to 64 bits before the shift) is exact: whatever
+   32-bit values the criterion holds, no shifted value wraps in 64 bits, so the repaired function IS the
+   unbounded one, whose minimum is 0 *)
+Lemma zmin_range lo hi v :
+  v <> [] -> Forall (fun x => (lo <= x < hi)%Z) v -> (lo <= zmin v < hi)%Z.
+Proof.
+  intros Hne H. unfold zmin. destruct v as [|a v]; [congruence|]. cbn [hd].
+  assert (G : forall l, Forall (fun x => (lo <= x < hi)%Z) l -> (lo <= fold_right Z.min a l < hi)%Z).
+  { induction l as [|x l IH]; intros Hl; cbn.
+    - inversion H; assumption.
+    - inversion Hl; subst. specialize (IH H3). lia. }
+  apply G. exact H.
+Qed.
+
+Theorem push_neg_widened_is_exact v :
+  Forall (fun x => (- 2 ^ 31 <= x < 2 ^ 31)%Z) v -> push_neg_wrapped 64 v = push_neg_Z v.
+Proof.
+  intros H. apply push_neg_wrapped_agrees. destruct v as [|a v]; [constructor|].
+  assert (Hm := zmin_range (- 2 ^ 31) (2 ^ 31) (a :: v) ltac:(discriminate) H).
+  rewrite Forall_forall in *. intros x Hx. specialize (H x Hx).
+  change (Z.pos 64 - 1)%Z with 63%Z. lia.
+Qed.
+
+Lemma zmin_shift k v : v <> [] -> zmin (map (fun x => (x - k)%Z) v) = (zmin v - k)%Z.
+Proof.
+  intros Hne. destruct v as [|a v]; [congruence|]. unfold zmin. cbn [map hd].
+  assert (G : forall l, fold_right Z.min (a - k)%Z (map (fun x => (x - k)%Z) l) = (fold_right Z.min a l - k)%Z).
+  { induction l as [|x l IH]; cbn; [reflexivity|]. rewrite IH. lia. }
+  change (fold_right Z.min (a - k)%Z (map (fun x => (x - k)%Z) (a :: v)) = (fold_right Z.min a (a :: v) - k)%Z).
+  apply G.
+Qed.
+
+Theorem push_neg_Z_min_zero v : v <> [] -> (zmin v < 0)%Z -> zmin (push_neg_Z v) = 0%Z.
+Proof.
+  intros Hne H. unfold push_neg_Z. destruct (Z.ltb_spec (zmin v) 0); [|lia].
+  rewrite zmin_shift by exact Hne. lia.
+Qed.
+
+(* together: the repaired function on any 8/16/32-bit criterion with a negative minimum reaches minimum 0 *)
+Corollary push_neg_repaired_min_zero v :
+  v <> [] -> Forall (fun x => (- 2 ^ 31 <= x < 2 ^ 31)%Z) v -> (zmin v < 0)%Z ->
+  zmin (push_neg_wrapped 64 v) = 0%Z.
+Proof. intros Hne Hr Hm. rewrite push_neg_widened_is_exact by exact Hr. apply push_neg_Z_min_zero; assumption. Qed.
